@@ -129,6 +129,15 @@ func (fr *frame) get(key ssa.Value) value {
 			return r
 		}
 		// globals are zero-initialised lazily (most are never touched on a path)
+		if key.Pkg != nil && lazyInitPkg(key.Pkg.Pkg.Path()) && !lazyInitDone[key.Pkg] && !lazyInitRunning {
+			if os.Getenv("GOSYM_LAZYDBG") != "" {
+				fmt.Fprintln(os.Stderr, "lazy init of", key.Pkg.Pkg.Path(), "triggered by", key.Name(), "in", fr.fn.String())
+			}
+			runLazyInit(fr.i, key.Pkg)
+			if r, ok := fr.i.globals[key]; ok {
+				return r
+			}
+		}
 		cell := zero(mustDeref(key.Type()))
 		fr.i.globals[key] = &cell
 		return &cell
@@ -342,6 +351,7 @@ func visitInstr(fr *frame, instr ssa.Instruction) continuation {
 		}
 
 	case *ssa.Go:
+		unsup("go statement (the executor is sequential)")
 		fn, args := prepareCall(fr, &instr.Call)
 		atomic.AddInt32(&fr.i.goroutines, 1)
 		go func() {
@@ -608,7 +618,7 @@ func callSSA(i *interpreter, caller *frame, callpos token.Pos, fn *ssa.Function,
 	}
 	if fn.Parent() == nil {
 		name := fn.String()
-		if fn.Name() == "init" && fn.Pkg != nil && !initAllowed(fn.Pkg.Pkg.Path()) {
+		if fn.Name() == "init" && fn.Pkg != nil && !initAllowed(fn.Pkg.Pkg.Path()) && !(lazyInitForce && lazyInitPkg(fn.Pkg.Pkg.Path())) {
 			return nil
 		}
 		if ext := externals[name]; ext != nil {
